@@ -293,6 +293,7 @@ class Session:
     def __enter__(self):
         from . import symfft, symndimage
         self.ctx.__enter__()
+        symnp.DTYPE_MODEL = False
         lift.install(symbolic_helpers())
         import importlib
         mo = importlib.import_module('prysm.mathops')
